@@ -92,6 +92,13 @@ class Space:
             if name == "extra":
                 f = ["dance-single", "", "Easy", "3", "0,0", "0000\n0000"]
                 return {"fields": list(f), "extra": ["", "e:1"]}, SMChart.from_msd(list(f) + ["", "e:1"])
+            if name == "scratch":
+                # a chart filled from scratch by attribute assignment, in another order than the documented one
+                f = ["pump-single", "s", "Hard", "9", "1,2", "00000\n00001"]
+                ch = SMChart()
+                for i in (5, 2, 0, 4, 1, 3):
+                    setattr(ch, M.SM_FIELDS[i].lower(), f[i])
+                return {"fields": list(f), "extra": None, "key_order": [M.SM_FIELDS[i] for i in (5, 2, 0, 4, 1, 3)]}, ch
         else:
             if name == "blank":
                 return {"items": list(self.blank_items)}, SSCChart.blank()
@@ -127,6 +134,29 @@ def apply_model(space, m, op):
         if not ok:
             return False
         m_set(items, op[1], v)
+    elif o == "pop":
+        return m_del(items, op[1])
+    elif o == "popitem":
+        if not items:
+            return False
+        items.pop()
+    elif o == "move_to_end":
+        ok, v = m_get(items, op[1])
+        if not ok:
+            return False
+        m_del(items, op[1])
+        items.append((op[1], v))
+    elif o == "update":
+        for k, v in op[1]:
+            m_set(items, k, v)
+    elif o == "setdefault":
+        ok, _ = m_get(items, op[1])
+        if not ok:
+            m_set(items, op[1], op[2])
+    elif o == "clear":
+        if not items:
+            return False
+        del items[:]
     elif o == "aset":
         std, alias = std_key(kind, op[1])
         m_set(items, attr_key(items, std, alias), value_of(op[2]))
@@ -155,7 +185,11 @@ def apply_model(space, m, op):
         if not charts:
             return False
         charts.append(copy.deepcopy(charts[0]))
-    elif o in ("cf_attr", "cf_key", "c_extra", "ck_set", "ck_del", "ck_alias", "ck_aset", "ck_adel"):
+    elif o == "c_extra_append":
+        if op[1] >= len(charts) or charts[op[1]]["extra"] is None:
+            return False
+        charts[op[1]]["extra"].append(op[2])
+    elif o in ("cf_attr", "cf_key", "c_extra", "ck_set", "ck_del", "ck_alias", "ck_aset", "ck_adel", "ck_pop", "ck_popitem", "ck_move_to_end", "ck_update", "ck_clear"):
         idx = op[1]
         if idx >= len(charts):
             return False
@@ -174,6 +208,25 @@ def apply_model(space, m, op):
             if not ok:
                 return False
             m_set(ch["items"], op[2], v)
+        elif o == "ck_pop":
+            return m_del(ch["items"], op[2])
+        elif o == "ck_popitem":
+            if not ch["items"]:
+                return False
+            ch["items"].pop()
+        elif o == "ck_move_to_end":
+            ok, v = m_get(ch["items"], op[2])
+            if not ok:
+                return False
+            m_del(ch["items"], op[2])
+            ch["items"].append((op[2], v))
+        elif o == "ck_update":
+            for k, v in op[2]:
+                m_set(ch["items"], k, v)
+        elif o == "ck_clear":
+            if not ch["items"]:
+                return False
+            del ch["items"][:]
         elif o == "ck_aset":
             std, alias = std_key(kind, op[2], chart=True)
             m_set(ch["items"], attr_key(ch["items"], std, alias), value_of(op[3]))
@@ -201,6 +254,20 @@ def apply_real(space, obj, op):
         del obj[op[1]]
     elif o == "alias":
         obj[op[1]] = obj[op[2]]
+    elif o == "pop":
+        obj.pop(op[1])
+    elif o == "popitem":
+        obj.popitem()
+    elif o == "move_to_end":
+        obj.move_to_end(op[1])
+    elif o == "update":
+        obj.update(dict(op[1]))
+    elif o == "setdefault":
+        obj.setdefault(op[1], op[2])
+    elif o == "clear":
+        obj.clear()
+    elif o == "c_extra_append":
+        obj.charts[op[1]].extradata.append(op[2])
     elif o == "aset":
         setattr(obj, op[1], value_of(op[2]))
     elif o == "adel":
@@ -233,6 +300,16 @@ def apply_real(space, obj, op):
             del ch[op[2]]
         elif o == "ck_alias":
             ch[op[2]] = ch[op[3]]
+        elif o == "ck_pop":
+            ch.pop(op[2])
+        elif o == "ck_popitem":
+            ch.popitem()
+        elif o == "ck_move_to_end":
+            ch.move_to_end(op[2])
+        elif o == "ck_update":
+            ch.update(dict(op[2]))
+        elif o == "ck_clear":
+            ch.clear()
         elif o == "ck_aset":
             setattr(ch, op[2], value_of(op[3]))
         elif o == "ck_adel":
@@ -359,7 +436,7 @@ def check_roundtrip(model, obj):
     except Exception as e:
         fail("serializing the reloaded simfile raised", "text", f"{type(e).__name__}: {e}")
     # equality as the library defines it
-    canonical_already = M.canonical(model) == model
+    canonical_already = M.canonical(model) == model or model["type"] == "sm"
     try:
         if canonical_already and not (back == obj):
             fail("the reloaded simfile does not compare equal to the original", "equal", "not equal")
